@@ -29,6 +29,7 @@ class Scanner:
         self.fx, self.ctx, self.rule = fx, ctx, rule
         self.found = []      # (kind, term)
         self.allowed = 0
+        self.loops = fx.ex.loops     # loop table of the executor whose terms are scanned
 
     def namey(self, t, tv) -> bool:
         tg = tag(t)
@@ -49,7 +50,7 @@ class Scanner:
         if tg == 'phi':
             return any(self.namey(v, tv) for _, v in t[1])
         if tg == 'lv':
-            loop = self.fx.ex.loops.get(t[1])
+            loop = self.loops.get(t[1])
             return loop is not None and loop.iter is not None and t[2].startswith('elem') and self.namey(loop.iter, tv)
         if tg in ('list', 'tuple', 'set'):
             return any(self.namey(x, tv) for x in t[1])
@@ -148,7 +149,14 @@ def labels_only(ctx, rule='C16-R1'):
     for q in sorted(reach):
         f = p.funcs[q]
         sc = Scanner(fx, ctx, rule)
-        for e in fx.own_events(q):
+        # a private helper all of whose callers live in its own module is judged in the context of those callers
+        # (expanded at the call site, its parameters bound to what is passed): extracting one changes nothing
+        callers = fx.callers.get(q, set())
+        if f.name.startswith('_') and not f.name.startswith('__') and callers and not f.is_property and \
+                all(c in p.funcs and p.funcs[c].module.name == f.module.name and c in reach for c in callers):
+            continue
+        sc.loops = fx.deep_loops(q)
+        for e in fx.deep_events(q):
             if e.kind in ('assign', 'propget', 'cond'):
                 continue
             before = len(sc.found)
@@ -235,12 +243,16 @@ def order_insensitive_reductions(ctx, rule='C16-R2'):
             n += 1
             s = fx.summ[q]
             ok = True
+            used_terms = [v for e in fx.own_events(q) for _, v in fx.terms_of(e)] + [s.ret]
             for nm, val in s.env.items():
                 if tag(val) == 'loopres' and val[1] == lid:
                     body = val[4]
                     lphi = ('lphi', lid, nm)
                     acc = tag(body) == 'bin' and body[1] == '+' and lphi in (body[2], body[3])
-                    ok = ok and (acc or body == lphi)
+                    # a per-iteration temporary (recomputed from the loop variable, never read after the loop) is no state
+                    temp = not T.contains(body, lambda x: tag(x) == 'lphi' and x[1] == lid) and \
+                        not any(t is not None and T.contains(t, lambda x, val=val: x == val) for t in used_terms)
+                    ok = ok and (acc or body == lphi or temp)
             ctx.check(ok, rule, q, loop.node, loop.func.loc(loop.node),
                       'a loop over the ceilometer names carries state other than a running sum: its result can '
                       'depend on the order (= spelling) of the names', instance=f'{q}: loop over names only accumulates')
